@@ -50,7 +50,9 @@ func redirectResponse(
 	}
 
 	responseMode := responseMode(params)
-	if responseMode.IsJARM() || c.JARMSigAlg != "" {
+	// An error for a request asking for a JWT response mode while JARM is not
+	// enabled cannot be delivered as a JWT, so it is sent as plain parameters.
+	if (responseMode.IsJARM() && ctx.JARMIsEnabled) || c.JARMSigAlg != "" {
 		responseJWT, err := createJARMResponse(ctx, c, redirectParams)
 		if err != nil {
 			return err
